@@ -61,6 +61,11 @@ impl Workload {
         self.profile = "ship";
         self
     }
+    /// the ship build under valgrind memcheck (about 30x slower: keep these workloads small)
+    pub fn memcheck(mut self) -> Self {
+        self.profile = "memcheck";
+        self
+    }
     pub fn shards(mut self, n: u64) -> Self {
         self.shards = n.max(1);
         self
@@ -190,7 +195,10 @@ pub fn worker_main(check: &Check, args: &[String]) -> i32 {
     let outfile = args[7].clone();
     let progress = std::env::var("ABV_PROGRESS").ok();
     util::install_quiet_panic_hook();
-    util::start_cpu_watchdog(Some(format!("{}.cpuwatch", outfile)), None);
+    if std::env::var("ABV_UNDER_MEMCHECK").is_err() {
+        // (under valgrind everything is ~30x slower: the CPU budget would not mean the same thing)
+        util::start_cpu_watchdog(Some(format!("{}.cpuwatch", outfile)), None);
+    }
     let ctx = Ctx {
         prop: check.id,
         tier,
@@ -244,7 +252,27 @@ pub fn worker_main(check: &Check, args: &[String]) -> i32 {
 // ---------------------------------------------------------------- parent side
 
 fn exe_for_profile(profile: &str) -> PathBuf {
-    PathBuf::from(format!("{}/target/{}/abv", VERIF_DIR, profile))
+    let dir = if profile == "memcheck" { "ship" } else { profile };
+    PathBuf::from(format!("{}/target/{}/abv", VERIF_DIR, dir))
+}
+
+pub const MEMCHECK_EXIT: i32 = 97;
+
+/// The command that runs the harness binary of a profile (`memcheck` = the ship build under valgrind).
+fn command_for_profile(profile: &str) -> Command {
+    if profile == "memcheck" {
+        let mut c = Command::new("valgrind");
+        c.arg("-q")
+            .arg(format!("--error-exitcode={}", MEMCHECK_EXIT))
+            .arg("--exit-on-first-error=yes")
+            .arg("--leak-check=no")
+            .arg("--num-callers=30")
+            .arg(exe_for_profile(profile))
+            .env("ABV_UNDER_MEMCHECK", "1");
+        c
+    } else {
+        Command::new(exe_for_profile(profile))
+    }
 }
 
 fn tmp_dir() -> PathBuf {
@@ -263,13 +291,12 @@ struct ShardOutcome {
 }
 
 fn run_shards(check: &Check, tier: Tier, seed: u64, w: &Workload) -> Vec<ShardOutcome> {
-    let exe = exe_for_profile(w.profile);
     let nshards = w.shards.min(w.cases.max(1));
     let mut children = vec![];
     for shard in 0..nshards {
         let outfile = tmp_dir().join(format!("{}-{}-{}-{}.json", check.id, w.name, w.profile, shard));
         let _ = std::fs::remove_file(&outfile);
-        let child = Command::new(&exe)
+        let child = command_for_profile(w.profile)
             .arg("worker")
             .arg(check.id)
             .arg(tier.name())
@@ -376,11 +403,10 @@ fn run_shards(check: &Check, tier: Tier, seed: u64, w: &Workload) -> Vec<ShardOu
 
 /// After a worker died: re-run that shard alone with a progress file to find the case index.
 fn locate_death(check: &Check, tier: Tier, seed: u64, w: &Workload, shard: u64, nshards: u64) -> Option<u64> {
-    let exe = exe_for_profile(w.profile);
     let progress = tmp_dir().join(format!("{}-{}-{}.progress", check.id, w.name, shard));
     let outfile = tmp_dir().join(format!("{}-{}-{}.careful.json", check.id, w.name, shard));
     let _ = std::fs::remove_file(&progress);
-    let mut child = Command::new(&exe)
+    let mut child = command_for_profile(w.profile)
         .arg("worker")
         .arg(check.id)
         .arg(tier.name())
@@ -463,7 +489,7 @@ pub fn parent_main(check: &Check, tier: Tier) -> i32 {
                     Some(index) => {
                         merged.violation(Violation {
                             property: check.id.to_string(),
-                            signature: format!("process-death:{}", w.name),
+                            signature: if death.contains("exit=Some(97)") { format!("memcheck:{}", w.name) } else { format!("process-death:{}", w.name) },
                             workload: w.name.to_string(),
                             profile: w.profile.to_string(),
                             seed,
@@ -638,7 +664,16 @@ pub fn replay_main(checks: &[Check], path: &Path) -> i32 {
     };
     let profile = v.get("profile").and_then(|x| x.as_str()).unwrap_or("monitor").to_string();
     let this_profile = current_profile();
-    if profile != this_profile {
+    if profile == "memcheck" && std::env::var("ABV_UNDER_MEMCHECK").is_err() {
+        let code = command_for_profile("memcheck").arg("replay").arg(path).status().ok().and_then(|s| s.code()).unwrap_or(2);
+        if code == MEMCHECK_EXIT {
+            println!("valgrind memcheck reported an error while the case ran (see above)");
+            println!("VIOLATION property={} replay={}", check.id, path.display());
+            return 1;
+        }
+        return code;
+    }
+    if profile != this_profile && !(profile == "memcheck" && this_profile == "ship") {
         // re-exec under the right build
         let status = Command::new(exe_for_profile(&profile)).arg("replay").arg(path).status();
         return status.ok().and_then(|s| s.code()).unwrap_or(2);
